@@ -281,6 +281,7 @@ type prop struct {
 	e2eCert    tls.Certificate
 	res        resEnv
 	full       fullEnv
+	conn       connEnv
 	caB64      string
 	caDER      []byte
 	foreignDER []byte
@@ -472,6 +473,9 @@ func (p *prop) setup() error {
 func (p *prop) Finish(*core.Session) {
 	if p.full.app != nil {
 		p.full.app.Stop()
+	}
+	if p.conn.app != nil {
+		p.conn.app.Stop()
 	}
 	if p.dir != "" {
 		os.RemoveAll(p.dir)
@@ -858,6 +862,8 @@ func (p *prop) Run(line string) core.Outcome {
 		o = p.runEnf(f)
 	case len(f) == 5 && f[0] == "full":
 		o = p.runFull(f)
+	case len(f) == 6 && f[0] == "conn":
+		o = p.runConn(f)
 	case len(f) == 3 && f[0] == "res":
 		o = p.runRes(f)
 	case len(f) == 2 && f[0] == "quic":
